@@ -14,4 +14,8 @@ var corpusScripts = []string{
 	"CREATE TABLE t (a int UNIQUE, b int, UNIQUE (b), UNIQUE (a, b));",
 	"CREATE TABLE p (id int primary key); CREATE TABLE c (pid int CONSTRAINT myfk REFERENCES p (id) ON DELETE CASCADE, q int, CONSTRAINT fk2 FOREIGN KEY (q) REFERENCES p(id) ON UPDATE SET NULL);",
 	"CREATE TABLE t (a int, b int); CREATE UNIQUE INDEX \"select\" ON t (a, b DESC); CREATE INDEX \"i 2\" ON t (b);",
+	// fix round (sql/sqlite/inspect.go): the letters AUTOINCREMENT later in the definition of a plain INTEGER PRIMARY KEY
+	// column; the longest form the grammar allows between PRIMARY KEY and AUTOINCREMENT
+	"CREATE TABLE t (id integer PRIMARY KEY NOT NULL CHECK (autoincrement_x > 0), autoincrement_x int);",
+	"CREATE TABLE t (id integer NOT NULL PRIMARY KEY DESC ON CONFLICT REPLACE AUTOINCREMENT, b int);",
 }
